@@ -338,8 +338,8 @@ def signature(harness, params, rec):
 def jobs(tier):
     q = tier == "quick"
     return [
-        {"harness": "backoff", "params": {"K": 4 if q else 6}, "label": "backoff/K=%d" % (4 if q else 6), "smt_dump": 4},
-        {"harness": "stop", "params": {"K": 3 if q else 5}, "label": "stop/K=%d" % (3 if q else 5)},
+        {"harness": "backoff", "params": {"K": 4 if q else 5}, "label": "backoff/K=%d" % (4 if q else 5), "smt_dump": 4 if q else 40},
+        {"harness": "stop", "params": {"K": 3 if q else 4}, "label": "stop/K=%d" % (3 if q else 4)},
         {"harness": "notify", "params": {"N": 4 if q else 6}, "label": "notify/N=%d" % (4 if q else 6)},
         {"harness": "triples", "params": {}, "label": "derived-triples"},
         {"harness": "backoff~no-cap", "params": {"K": 2}, "label": "backoff~no-cap", "role": "sens"},
@@ -351,7 +351,7 @@ def meta(tier):
         "explanation": "M1: the real Runnable.run/__increment_backoff/backoff/nothing_happened/stop/start and NotificationManager.do/notify/stop run "
                        "in one thread with min/max/mult as z3 reals; each requested sleep is proved equal to min(max, min*mult^(k-1)) by a nonlinear-real "
                        "validity query on every outcome sequence; stop point, finality and handler failures are solver-enumerated choices.",
-        "bounds": {"iterations": "K = 4 (thorough 6) outcomes from %s" % OUTCOMES, "stop": "K = 3 (5), stop from do() or until(), final or not",
+        "bounds": {"iterations": "K = 4 (thorough 5) outcomes from %s" % OUTCOMES, "stop": "K = 3 (4), stop from do() or until(), final or not",
                    "notifications": "N = 4 (6), any subset of raising handler calls, stop marker at any position"},
         "symbolic": ["min_backoff, max_backoff, mult_backoff: reals with 0 < min <= max, mult >= 1", "outcome of every iteration", "stop iteration/finality/origin",
                      "which handler calls raise; where the stop marker sits", "providers' default_sleep (derived triples)"],
